@@ -941,7 +941,7 @@ fn run(ctx: &Ctx) {
     let mut seqs: Vec<Vec<Op>> = Vec::new();
     enumerate(max_len, &mut vec![], &alphabet, &mut |s| seqs.push(s.to_vec()));
     ctx.set_extra(
-        "exhaustive",
+        "exhaustive_part",
         json!({"alphabet": 7, "max_len": max_len, "sequences_per_collection": seqs.len(), "collections": COLLECTIONS}),
     );
     let next = std::sync::atomic::AtomicUsize::new(0);
